@@ -46,6 +46,8 @@ type op struct {
 
 type cell struct {
 	Shape string `json:"shape"` // generator label (part of failure signatures)
+	Companion bool `json:"companion,omitempty"` // h = 1 means ANOTHER origin on the same host name (localhost:<other port>;
+	// TLS, h2+http/1.1, no HTTP/3, no Alt-Svc) instead of the second name of this one
 	Proxy int    `json:"proxy,omitempty"` // the proxy the "proxy" op switches on: 1 = http:// CONNECT proxy, 2 = https:// one
 	Life  string `json:"life,omitempty"` // lifecycle of the structured matrix (quick-tier stratification)
 	Spec  srvSpec `json:"server"`
@@ -335,7 +337,9 @@ func waitFor(d time.Duration, f func() bool) bool {
 	}
 }
 
-func runCell(p *pki, o *origin, cl cell, timeout time.Duration) (res cellResult) {
+var companionSpec = srvSpec{Name: "tls-h2h1-h3no", HTTPS: true, ALPN: []string{"h2", "http/1.1"}}
+
+func runCell(p *pki, o *origin, comp *origin, cl cell, timeout time.Duration) (res cellResult) {
 	defer func() {
 		if e := recover(); e != nil {
 			res.Obs = append(res.Obs, obsRec{Kind: "req", Outcome: "EProto", Detail: fmt.Sprintf("panic: %v", e)})
@@ -425,12 +429,16 @@ func runCell(p *pki, o *origin, cl cell, timeout time.Duration) (res cellResult)
 	// force = the version the operations applied so far have forced on this client (tracked here from the
 	// operation sequence, a clone inheriting its original's: NOT read back from the client)
 	doReq := func(c *req.Client, hadV3 *bool, w want, tag string, hi int, closeReq bool) (rec, bg obsRec) {
-		host := hostNames[hi]
-		u, _ := url.Parse(o.urlH(hi))
+		po := o // the origin whose proxies the cell uses
+		o, host, uh := o, hostNames[hi], hi
+		if cl.Companion && hi == 1 {
+			o, host, uh = comp, hostNames[0], 0
+		}
+		u, _ := url.Parse(o.urlH(uh))
 		// crypto/tls sends no server_name for an IP literal: the listeners (and the origin's handler) then see "",
 		// recorded as the literal - the name the certificate was verified against
 		normSNI := func(s string) string {
-			if s == "" && hi == 1 {
+			if s == "" && uh == 1 {
 				return host
 			}
 			return s
@@ -456,10 +464,11 @@ func runCell(p *pki, o *origin, cl cell, timeout time.Duration) (res cellResult)
 				refTun, sniTun = refAcceptable(p, w.origin(true), o, host)
 			}
 			if cl.Proxy == 2 {
-				refHop, sniHop = refProxyHop(p, w.proxyHop(), o)
+				refHop, sniHop = refProxyHop(p, w.proxyHop(), po)
 			}
 		}
-		nConnect := o.connectCount()
+		nConnect := po.connectCount()
+		pm := po.mark()
 		nNeg := len(negotiated)
 		altBefore := c.GetTransport().VerifAltSvcState(u)
 		m := o.mark()
@@ -468,7 +477,7 @@ func runCell(p *pki, o *origin, cl cell, timeout time.Duration) (res cellResult)
 		if closeReq {
 			rq.SetHeader("Connection", "close")
 		}
-		resp, err := rq.Get(o.urlH(hi))
+		resp, err := rq.Get(o.urlH(uh))
 		rec = obsRec{Kind: "req"}
 		var originProto, sni, cn string
 		switch {
@@ -519,7 +528,17 @@ func runCell(p *pki, o *origin, cl cell, timeout time.Duration) (res cellResult)
 			}
 		}
 		retried := 0
-		for _, h := range o.since(m) {
+		hs := o.since(m)
+		if po != o { // the proxy's hellos are in the log of the origin that owns the proxy
+			var ph []hello
+			for _, h := range po.since(pm) {
+				if h.Proxy {
+					ph = append(ph, h)
+				}
+			}
+			hs = append(ph, hs...)
+		}
+		for _, h := range hs {
 			if h.Proxy {
 				if h.SNI == "" {
 					h.SNI = "127.0.0.1" // the proxy is addressed by that literal
@@ -629,7 +648,7 @@ func runCell(p *pki, o *origin, cl cell, timeout time.Duration) (res cellResult)
 		}
 		if o.spec.HTTPS && len(rec.Hellos) > 0 {
 			stack := "tcp"
-			viaProxy := o.connectCount() > nConnect
+			viaProxy := po.connectCount() > nConnect
 			if rec.Hellos[len(rec.Hellos)-1].Quic {
 				stack = "quic"
 			} else if viaProxy {
@@ -856,7 +875,9 @@ func coqObs(os []obsRec) string {
 	return hk.CoqList(out)
 }
 
-func coqEnv(s srvSpec, proxy int) string {
+func coqEnv(s srvSpec, proxy int) string { return coqEnvH(s, proxy, hostNames[0]) }
+
+func coqEnvH(s srvSpec, proxy int, host string) string {
 	need := "None"
 	if s.NeedCert {
 		need = "(Some 3%N)"
@@ -865,10 +886,14 @@ func coqEnv(s srvSpec, proxy int) string {
 	if proxy > 0 && s.HTTPS {
 		px = fmt.Sprintf("(Some (mkProxy %s %s 1%%N %s))", hk.CoqBool(proxy == 2), hk.CoqStr("127.0.0.1"), hk.CoqStrList(proxySANs))
 	}
-	return fmt.Sprintf("(mkEnv %s %s (mkSrv %s %s %s %s 1%%N %s %s) %s)", hk.CoqBool(s.HTTPS), hk.CoqStr("localhost"),
+	return fmt.Sprintf("(mkEnv %s %s (mkSrv %s %s %s %s 1%%N %s %s) %s)", hk.CoqBool(s.HTTPS), hk.CoqStr(host),
 		hk.CoqStrList(s.ALPN), hk.CoqBool(s.H3), hk.CoqBool(s.AltSvc), hk.CoqBool(s.H2C), hk.CoqStrList(s.sans()), need, px)
 }
 
 func coqCase(cl cell, os []obsRec) string {
-	return fmt.Sprintf("(mkCase %s %s %s %s)", coqEnv(cl.Spec, cl.Proxy), hk.CoqStr(hostNames[1]), coqOps(cl.Ops), coqObs(os))
+	env2 := coqEnvH(cl.Spec, cl.Proxy, hostNames[1])
+	if cl.Companion {
+		env2 = coqEnvH(companionSpec, cl.Proxy, hostNames[0])
+	}
+	return fmt.Sprintf("(mkCase %s %s %s %s)", coqEnv(cl.Spec, cl.Proxy), env2, coqOps(cl.Ops), coqObs(os))
 }
